@@ -526,7 +526,9 @@ class InventoryWorkingTree(WorkingTree, MutableInventoryTree):
                             else:
                                 message = backup(f)
                         else:
-                            if f in files_to_backup:
+                            if f in files_to_backup or (not fid and not force):
+                                # An unversioned file is never recoverable
+                                # from history: only force may delete it.
                                 message = backup(f)
                             else:
                                 osutils.delete_any(abs_path)
